@@ -20,7 +20,7 @@ type preinst struct {
 }
 
 func collectCandidates(all []*Term, focus []*Term) *preinst {
-	p := &preinst{strs: map[string][]*Term{}, apps: map[string][][]*Term{}, limit: 600, seen: map[string]bool{}}
+	p := &preinst{strs: map[string][]*Term{}, apps: map[string][][]*Term{}, limit: 900, seen: map[string]bool{}}
 	bound := map[string]bool{}
 	for _, a := range all {
 		a.Walk(func(x *Term) {
@@ -41,7 +41,7 @@ func collectCandidates(all []*Term, focus []*Term) *preinst {
 	intSeen := map[string]bool{}
 	addInt := func(t *Term) {
 		k := t.String()
-		if !intSeen[k] && len(p.ints) < 28 {
+		if !intSeen[k] && len(p.ints) < 36 {
 			intSeen[k] = true
 			p.ints = append(p.ints, t)
 		}
@@ -80,6 +80,11 @@ func collectCandidates(all []*Term, focus []*Term) *preinst {
 				if !x.IsSym && x.Op == "select" && len(x.Args) == 2 && x.Args[1].S == SInt && isGround(x.Args[1]) {
 					idx := x.Args[1]
 					if !idx.IsSym && idx.Op == "+" && len(idx.Args) == 2 {
+						// offset + index (strings, slices): the index; base + k
+						// (traces): the whole sum
+						if a0 := idx.Args[0]; !(a0.Op == "soff" || a0.Op == "sloff") || a0.IsSym {
+							addInt(idx)
+						}
 						if _, isC := idx.Args[1].IntVal(); !isC {
 							addInt(idx.Args[1])
 						}
@@ -141,6 +146,13 @@ func (p *preinst) walk(ctx []*Term, t *Term, depth int) {
 		}
 	case "=>":
 		p.walk(append(append([]*Term{}, ctx...), t.Args[0]), t.Args[1], depth)
+	case "streq":
+		// content equality hides a quantifier over byte positions
+		a, b := t.Args[0], t.Args[1]
+		p.emit(ctx, Eq(SLen(a), SLen(b)))
+		for _, c := range p.ints {
+			p.emit(ctx, Imp(And(Le(IntLit(0), c), Lt(c, SLen(a))), Eq(SAt(a, c), SAt(b, c))))
+		}
 	case "forall":
 		if len(t.Bound) != 1 {
 			return
@@ -230,5 +242,83 @@ func preInstantiate(asserts []*Term, focus []*Term) []*Term {
 			p.walk(nil, a, 0)
 		}
 	}
+	p.engineInstances(all)
+	// second round: index expressions that only appear in the instances just
+	// produced (e.g. tr[pos[k]] after instantiating an invariant at k)
+	have := map[string]bool{}
+	for _, c := range p.ints {
+		have[c.String()] = true
+	}
+	var fresh []*Term
+	for _, inst := range p.out {
+		inst.Walk(func(x *Term) {
+			if !x.IsSym && x.Op == "select" && len(x.Args) == 2 && x.Args[1].S == SInt && len(fresh) < 12 {
+				idx := x.Args[1]
+				if _, isC := idx.IntVal(); isC || !isGroundTerm(idx) || idx.Size() > 12 {
+					return
+				}
+				if !idx.IsSym && idx.Op == "+" {
+					return // offsets into strings: covered by the first round
+				}
+				if k := idx.String(); !have[k] {
+					have[k] = true
+					fresh = append(fresh, idx)
+				}
+			}
+		})
+	}
+	if len(fresh) > 0 {
+		p.ints = fresh
+		for _, a := range asserts {
+			if hasQuantStrict(a) {
+				p.walk(nil, a, 0)
+			}
+		}
+	}
 	return p.out
+}
+
+// engineInstances: ground instances of the (quantified) axioms of the
+// engine's own function symbols - sconcat, chr, seqshift - for the ground
+// applications that occur, at the candidate integers.
+func (p *preinst) engineInstances(all []*Term) {
+	seen := map[string]bool{}
+	for _, t := range all {
+		t.Walk(func(x *Term) {
+			if !x.IsSym || len(x.Args) == 0 || !isGroundTerm(x) {
+				return
+			}
+			k := x.String()
+			if seen[k] {
+				return
+			}
+			switch x.Op {
+			case "sconcat":
+				seen[k] = true
+				a, b := x.Args[0], x.Args[1]
+				p.emit(nil, And(Eq(SOff(x), IntLit(0)), Eq(SLen(x), Add(SLen(a), SLen(b)))))
+				for _, c := range p.ints {
+					p.emit(nil, Imp(And(Le(IntLit(0), c), Lt(c, SLen(a))), Eq(Select(SArr(x), c), SAt(a, c))))
+					p.emit(nil, Imp(And(Le(SLen(a), c), Lt(c, Add(SLen(a), SLen(b)))), Eq(Select(SArr(x), c), SAt(b, Sub(c, SLen(a))))))
+				}
+				// the bytes of a short literal right operand
+				if n, ok := SLen(b).IntVal(); ok && n <= 8 {
+					for j := int64(0); j < n; j++ {
+						p.emit(nil, Eq(Select(SArr(x), Add(SLen(a), IntLit(j))), SAt(b, IntLit(j))))
+					}
+				}
+			case "chr":
+				seen[k] = true
+				c := x.Args[0]
+				p.emit(nil, And(Eq(SOff(x), IntLit(0)),
+					Imp(And(Le(IntLit(0), c), Lt(c, IntLit(128))), And(Eq(SLen(x), IntLit(1)), Eq(Select(SArr(x), IntLit(0)), c))),
+					Imp(And(Le(IntLit(128), c), Lt(c, IntLit(2048))), Eq(SLen(x), IntLit(2)))))
+			case "seqshift":
+				seen[k] = true
+				for _, c := range p.ints {
+					p.emit(nil, Eq(Select(x, c), Select(x.Args[0], Add(x.Args[1], c))))
+				}
+			}
+		})
+	}
 }
